@@ -319,6 +319,20 @@ def run_arithmetic(acc):
             "m1.to(u2) - m1": (lambda: (m1.to(u2) - m1).to(u1), 0.0, 0.0),
             "2 * m1 - m1": (lambda: 2 * m1 - m1, 4.0, 0.3),
             "(m1 ** 2) / m1": (lambda: ((m1**2) / m1).to(u1), 4.0, 0.3),
+            # neutral elements: adding the number 0 (what sum() starts from), multiplying by 1, a zero quantity
+            "(m1 + 0) - m1": (lambda: (m1 + 0) - m1, 0.0, 0.0),
+            "(0 + m1) - m1": (lambda: (0 + m1) - m1, 0.0, 0.0),
+            "(m1 - 0) - m1": (lambda: (m1 - 0) - m1, 0.0, 0.0),
+            "(m1 + 0.0) - m1": (lambda: (m1 + 0.0) - m1, 0.0, 0.0),
+            "sum([m1, m2]) - (m1 + m2)": (lambda: (sum([m1, m2]) - (m1 + m2)).to(u1), 0.0, 0.0),
+            "(m1 * 1) - m1": (lambda: (m1 * 1) - m1, 0.0, 0.0),
+            "(1 * m1) / m1": (lambda: (1 * m1) / m1, 1.0, 0.0),
+            "(m1 / 1) - m1": (lambda: (m1 / 1) - m1, 0.0, 0.0),
+            "(m1 + Q(0, u2)) - m1": (lambda: ((m1 + Q(0.0, u2)) - m1).to(u1), 0.0, 0.0),
+            "(m1 ** 1) - m1": (lambda: (m1**1) - m1, 0.0, 0.0),
+            "(+m1) - m1": (lambda: (+m1) - m1, 0.0, 0.0),
+            "-(-m1) - m1": (lambda: -(-m1) - m1, 0.0, 0.0),
+            "abs(m1) - m1": (lambda: abs(m1) - m1, 0.0, 0.0),
         }
         for name, (fn, wv, ws) in exprs.items():
             acc.ev()
